@@ -61,6 +61,12 @@ type Engine struct {
 	OnLoop    func(e *Engine, fr *frame, l *loopInfo)
 	Unknown   []string // constructs the engine does not model (reported as undecided)
 	wrapAtoms map[string]Atom
+	// Wraps: fixed-width arithmetic instructions -> [times evaluated in checking mode, times a wrap-around could not be excluded]
+	Wraps map[ssa.Instruction][2]int
+	// AccessHook is called (checking mode) for every read extent on a slice: index+1, slice high bound, or low+N for binary.BigEndian reads.
+	AccessHook func(e *Engine, st *State, in ssa.Instruction, base ssa.Value, extent Lin)
+	// CallHook is called (checking mode) before a package-local call is evaluated.
+	CallHook func(e *Engine, st *State, in *ssa.Call, callee *ssa.Function)
 	dynThr    map[*ssa.Function]map[int64]bool
 	selfRec   map[*ssa.Function]bool
 	SummarisedRecursive map[string]int // self-recursive functions summarised at call sites (they must be analysed as roots)
@@ -96,7 +102,7 @@ func NewEngine(pkg *ssa.Package, cg *callgraph.Graph) *Engine {
 	e := &Engine{Pkg: pkg, CG: cg, valAtom: map[ssa.Value]Atom{}, lenAtoms: map[ssa.Value]Atom{}, cellAtom: map[string]Atom{},
 		tupAtom: map[string]Atom{}, temps: map[int]Atom{}, vids: map[ssa.Value]int{}, Obls: map[string]*Obl{}, MaxDepth: 6,
 		callees: map[ssa.CallInstruction][]*ssa.Function{}, MaxSteps: 40000000, Externals: map[string]int{}, Universe: map[*ssa.Function]bool{},
-		ordinals: map[*ssa.Function]map[ssa.Instruction]int{}, objType: map[string]string{}, SpareOnReflectSet: map[string]bool{}, isCell: map[Atom]bool{}, snapAtoms: map[string]Atom{}, Summaries: map[*ssa.Function]*FnSummary{}, RecursionCuts: map[string]int{}, SummarisedRecursive: map[string]int{}}
+		ordinals: map[*ssa.Function]map[ssa.Instruction]int{}, objType: map[string]string{}, SpareOnReflectSet: map[string]bool{}, isCell: map[Atom]bool{}, snapAtoms: map[string]Atom{}, Summaries: map[*ssa.Function]*FnSummary{}, RecursionCuts: map[string]int{}, SummarisedRecursive: map[string]int{}, Wraps: map[ssa.Instruction][2]int{}}
 	if cg != nil {
 		for _, n := range cg.Nodes {
 			for _, ed := range n.Out {
@@ -464,4 +470,19 @@ type FnSummary struct {
 	SliceParam  int   // index in Params of the []byte parameter
 	MinLenOnNil int64 // -1: may return nil for any length; else proven lower bound
 	NilPossible bool  // some return may yield a nil error
+}
+
+// Exported helpers for property-specific hooks.
+func (e *Engine) ExprOf(st *State, v ssa.Value) Lin    { return e.expr(st, v) }
+func (e *Engine) LenExprOf(st *State, v ssa.Value) Lin { return e.lenExpr(st, v) }
+func (e *Engine) LinString(l Lin) string               { return e.linStr(l) }
+func (e *Engine) Checking() bool {
+	return len(e.stack) > 0 && e.stack[len(e.stack)-1].check
+}
+func (e *Engine) Context() string { return e.ctx() }
+func (e *Engine) CurrentFn() *ssa.Function {
+	if len(e.stack) == 0 {
+		return nil
+	}
+	return e.stack[len(e.stack)-1].fn
 }
